@@ -1,10 +1,50 @@
 package main
 
 import (
+	"bytes"
 	"fmt"
 	"go/ast"
+	"go/printer"
 	"go/token"
+	"strings"
 )
+
+// c19CallArg: the source text of argument number `idx` of every call to `callee` (a function or method name) inside `fn`,
+// in source order; a leading receiver qualifier `s.` is dropped so that a local and the scheduler field read alike.
+func (g *gen) c19CallArg(group, pkgPath, fn, callee string, idx int, lean string) {
+	_, fd := g.findFunc(pkgPath, fn)
+	if fd == nil {
+		return
+	}
+	var seq []string
+	ast.Inspect(fd.Body, func(n ast.Node) bool {
+		ce, ok := n.(*ast.CallExpr)
+		if !ok {
+			return true
+		}
+		name := exprString(ce.Fun)
+		if name != callee && !strings.HasSuffix(name, "."+callee) {
+			return true
+		}
+		if idx >= len(ce.Args) {
+			seq = append(seq, "<missing>")
+			return true
+		}
+		var b bytes.Buffer
+		printer.Fprint(&b, token.NewFileSet(), ce.Args[idx])
+		seq = append(seq, strings.TrimPrefix(strings.Join(strings.Fields(b.String()), " "), "s."))
+		return true
+	})
+	b := g.out(group)
+	fmt.Fprintf(b, "/-- argument %d of the calls to `%s` inside `%s.%s` (%s), in source order -/\ndef %s : List String := [", idx, callee, pkgPath, fn, g.pos(fd.Pos()), lean)
+	for i, s := range seq {
+		if i > 0 {
+			b.WriteString(", ")
+		}
+		b.WriteString(leanStr(s))
+	}
+	b.WriteString("]\n\n")
+}
 
 // c19FlagAssigns: every assignment to the local boolean `flag` inside `fn`, in source order, classified by its right-hand
 // side: "false" / "true" (the literals), "or-self" (flag || …, … || flag), "other" (anything else: the flag takes the
@@ -88,6 +128,10 @@ func init() {
 		g.callSeq(grp, "pkg/controllers/provisioning/scheduling", "NewNodeClaimTemplate", "newNodeClaimTemplateCalls",
 			[]string{"Assign", "NewLabelRequirements"})
 		// NewScheduler: the flag "some NodePool has a PreferNoSchedule taint" starts false and is only ever raised
+		// minValues: the NodePool-level pre-filter of NewScheduler (which decides whether a pool becomes a template at all)
+		// and the per-pod filter behind NodeClaim.CanAdd relax minValues under the same condition
+		g.c19CallArg(grp, "pkg/controllers/provisioning/scheduling", "NewScheduler", "filterInstanceTypesByRequirements", 6, "prefilterRelaxArg")
+		g.c19CallArg(grp, "pkg/controllers/provisioning/scheduling", "Scheduler.addToNewNodeClaim", "CanAdd", 3, "canAddRelaxArg")
 		g.c19FlagAssigns(grp, "pkg/controllers/provisioning/scheduling", "NewScheduler", "toleratePreferNoSchedule", "tolerateFlagAssigns")
 	})
 }
